@@ -149,6 +149,7 @@ class Exit(GuardBase):
         pt0, pt1 = fields(c.pre, c.self)[1], fields(c.post, c.self)[1]
         drop = z3.And(b_of(pt0), i_of(rc1) == 0)
         return inv(c.eng, c.post) + self.keep(c) + [
+            ("result-none", c.res == NONE),          # a falsy result: the exception of the copy is never swallowed
             ("count", i_of(rc1) == i_of(rc0) - 1),
             ("patched", b_of(pt1) == z3.And(b_of(pt0), i_of(rc1) != 0)),
             ("table", z3.If(drop, z3.And(same_off_module(c.eng, c.pre, c.post),
